@@ -478,7 +478,7 @@ impl Val {
         #[cfg(kepler_5_rrss_verif)]
         if let (Val::String(a), Val::Number(b)) = (a.as_ref(), b.as_ref()) {
             if *b >= 0.0 {
-                crate::verif_hooks::check_alloc(a.len().saturating_mul(*b as usize));
+                crate::verif_hooks::check_alloc(a.len().max(1).saturating_mul(*b as usize));
             }
         }
         match (a.as_ref(), b.as_ref()) {
